@@ -26,6 +26,7 @@ func recvTypeName(fn *ssa.Function) string {
 // native returns true if the call was modelled natively.
 func (e *Engine) native(st *State, in ssa.Instruction, t callTarget, k func(*State, Val)) bool {
 	fn := t.fn
+	inst := t.fn // the instantiated function: its signature has the concrete types
 	if o := fn.Origin(); o != nil {
 		fn = o
 	}
@@ -161,7 +162,7 @@ func (e *Engine) native(st *State, in ssa.Instruction, t callTarget, k func(*Sta
 			return true
 		}
 	case "sync/atomic.Bool", "sync/atomic.Int32", "sync/atomic.Int64", "sync/atomic.Uint32", "sync/atomic.Uint64", "sync/atomic.Pointer":
-		resT := resultType(fn.Signature)
+		resT := resultType(inst.Signature)
 		switch name {
 		case "Load":
 			_, v := leaf(0)
